@@ -1,1 +1,1048 @@
-//! Boolean-function scenario helpers (filled in below).
+//! Boolean-function scenario shared by the BDD, BCDD and ZBDD kinds.
+//!
+//! `Bf<K>` interprets the line protocol of DESIGN.md Appendix A on a real manager of kind `K`.
+//! For every handle it tracks the *expected* truth table, computed from the operands' expected
+//! tables by the propositional definition of the operation (never from the implementation), and
+//! compares it with the table obtained by an independent node-by-node walk of the returned
+//! diagram (`Kind::walk_eval`) and with `eval`.
+
+use std::collections::{BTreeMap, HashMap};
+use std::hash::Hash;
+
+use oxidd::util::{AllocResult, OptBool, SatCountCache};
+use oxidd::{BooleanFunction, Function, Manager, ManagerRef};
+use oxidd_core::function::EdgeOfFunc;
+
+use crate::{Ctx, Scenario, words};
+
+// ------------------------------------------------------------------------------------------------
+// Truth tables
+
+/// Truth table over `n` variables; bit `a` is the value under the assignment whose bit `v` is the
+/// value of variable `v`.
+#[derive(Clone, PartialEq, Eq, Hash, Debug)]
+pub struct TT {
+    pub n: u32,
+    pub bits: Vec<u64>,
+}
+
+impl TT {
+    pub fn len(&self) -> usize {
+        1usize << self.n
+    }
+    pub fn new(n: u32, v: bool) -> TT {
+        let len = 1usize << n;
+        let words = len.div_ceil(64);
+        let mut t = TT { n, bits: vec![if v { !0u64 } else { 0 }; words] };
+        t.mask();
+        t
+    }
+    fn mask(&mut self) {
+        let len = self.len();
+        if len < 64 {
+            self.bits[0] &= (1u64 << len) - 1;
+        }
+    }
+    pub fn get(&self, a: usize) -> bool {
+        (self.bits[a / 64] >> (a % 64)) & 1 != 0
+    }
+    pub fn set(&mut self, a: usize, v: bool) {
+        if v {
+            self.bits[a / 64] |= 1 << (a % 64);
+        } else {
+            self.bits[a / 64] &= !(1 << (a % 64));
+        }
+    }
+    pub fn from_fn(n: u32, f: impl Fn(usize) -> bool) -> TT {
+        let mut t = TT::new(n, false);
+        for a in 0..t.len() {
+            if f(a) {
+                t.set(a, true);
+            }
+        }
+        t
+    }
+    pub fn var(n: u32, v: u32) -> TT {
+        TT::from_fn(n, |a| (a >> v) & 1 != 0)
+    }
+    pub fn map2(&self, o: &TT, f: impl Fn(bool, bool) -> bool) -> TT {
+        assert_eq!(self.n, o.n);
+        TT::from_fn(self.n, |a| f(self.get(a), o.get(a)))
+    }
+    pub fn not(&self) -> TT {
+        TT::from_fn(self.n, |a| !self.get(a))
+    }
+    pub fn is_false(&self) -> bool {
+        self.bits.iter().all(|&w| w == 0)
+    }
+    pub fn is_true(&self) -> bool {
+        *self == TT::new(self.n, true)
+    }
+    pub fn count(&self) -> u64 {
+        self.bits.iter().map(|w| w.count_ones() as u64).sum()
+    }
+    /// `self` with variable `v` fixed to `b`
+    pub fn cofactor(&self, v: u32, b: bool) -> TT {
+        TT::from_fn(self.n, |a| self.get(if b { a | (1 << v) } else { a & !(1 << v) }))
+    }
+    pub fn depends_on(&self, v: u32) -> bool {
+        self.cofactor(v, false) != self.cofactor(v, true)
+    }
+    pub fn implies(&self, o: &TT) -> bool {
+        self.bits.iter().zip(&o.bits).all(|(a, b)| a & !b == 0)
+    }
+    /// extend to `n2 >= n` variables (function does not depend on the new ones)
+    pub fn extend(&self, n2: u32) -> TT {
+        let m = self.len() - 1;
+        TT::from_fn(n2, |a| self.get(a & m))
+    }
+    /// ZBDD view: new variables must be 0
+    pub fn extend_zero(&self, n2: u32) -> TT {
+        let len = self.len();
+        TT::from_fn(n2, |a| a < len && self.get(a))
+    }
+    pub fn hex(&self) -> String {
+        let mut s = String::new();
+        for w in self.bits.iter().rev() {
+            if self.len() >= 64 {
+                s.push_str(&format!("{:016x}", w));
+            } else {
+                s.push_str(&format!("{:0width$x}", w, width = self.len().div_ceil(4).max(1)));
+            }
+        }
+        s
+    }
+    /// if `self` is a (satisfiable) cube: literals `(var, polarity)`; variables it does not fix are omitted
+    pub fn cube_literals(&self) -> Option<Vec<(u32, bool)>> {
+        if self.is_false() {
+            return None;
+        }
+        let mut lits = Vec::new();
+        let mut rebuilt = TT::new(self.n, true);
+        for v in 0..self.n {
+            let xv = TT::var(self.n, v);
+            if self.implies(&xv) {
+                lits.push((v, true));
+                rebuilt = rebuilt.map2(&xv, |a, b| a && b);
+            } else if self.implies(&xv.not()) {
+                lits.push((v, false));
+                rebuilt = rebuilt.map2(&xv, |a, b| a && !b);
+            }
+        }
+        if rebuilt == *self { Some(lits) } else { None }
+    }
+}
+
+pub fn bin_sem(op: &str) -> Option<fn(bool, bool) -> bool> {
+    Some(match op {
+        "and" => |a, b| a && b,
+        "or" => |a, b| a || b,
+        "nand" => |a, b| !(a && b),
+        "nor" => |a, b| !(a || b),
+        "xor" => |a, b| a ^ b,
+        "equiv" => |a, b| a == b,
+        "imp" => |a, b| !a || b,
+        "imp_strict" => |a, b| !a && b,
+        _ => return None,
+    })
+}
+
+pub const BIN_OPS: [&str; 8] = ["and", "or", "nand", "nor", "xor", "equiv", "imp", "imp_strict"];
+
+// ------------------------------------------------------------------------------------------------
+// Kind interface
+
+pub struct AuditInfo {
+    /// number of inner nodes found by iterating over all levels
+    pub inner: usize,
+    /// per inner node: (level, printed tree, ref count)
+    pub nodes: Vec<(u32, String, usize)>,
+}
+
+pub trait Kind: Sized + 'static {
+    type F: BooleanFunction + Function + Eq + Hash + Clone + Ord;
+    const NAME: &'static str;
+    /// number of nodes `node_count` reports for a terminal-only diagram etc. is kind specific; the
+    /// reference diagram size is computed by `ref_node_count`
+    fn new_manager(nodes: usize, cache: usize, threads: u32) -> <Self::F as Function>::ManagerRef;
+    /// canonical rendering with variable numbers
+    fn tree<'id>(m: &<Self::F as Function>::Manager<'id>, e: &EdgeOfFunc<'id, Self::F>) -> String;
+    /// independent node-by-node interpretation under the current order
+    fn walk_eval<'id>(m: &<Self::F as Function>::Manager<'id>, e: &EdgeOfFunc<'id, Self::F>, a: usize) -> bool;
+    /// structural audit through the public API (C03): `Err(msg)` on the first violated rule
+    fn audit<'id>(m: &<Self::F as Function>::Manager<'id>) -> Result<AuditInfo, String>;
+    /// reorder (set_var_order); `seq` selects `set_var_order_seq`
+    fn reorder(mref: &<Self::F as Function>::ManagerRef, order: &[u32], seq: bool);
+    /// how a handle's expected table changes when variables are appended
+    fn extend_tt(t: &TT, n2: u32) -> TT;
+    /// number of nodes (as `node_count` counts them) of the reduced diagram of `t` under the
+    /// order `l2v` (level -> var), computed by an independent reference construction
+    fn ref_node_count(t: &TT, l2v: &[u32]) -> usize;
+    /// kind-specific operations (quantification, substitution, set operations, ...)
+    fn ext(sc: &mut Bf<Self>, w: &[&str], ctx: &mut Ctx) -> Option<String>;
+    /// ids of the nodes that the manager keeps alive itself (internal roots), as printed trees
+    fn internal_roots<'id>(_m: &<Self::F as Function>::Manager<'id>) -> usize {
+        0
+    }
+    /// expected table of `restrict(f, cube)`; `plain` is the cofactor of `f` w.r.t. the cube's
+    /// literals (the B(C)DD reading). ZBDDs override this with their documented reading.
+    fn restrict_expected(_f: &TT, _cube: &TT, plain: TT) -> TT {
+        plain
+    }
+}
+
+pub struct Bf<K: Kind> {
+    pub mref: Option<<K::F as Function>::ManagerRef>,
+    pub h: HashMap<String, K::F>,
+    pub tt: HashMap<String, TT>,
+    pub n: u32,
+    pub threads: u32,
+    pub extra: BTreeMap<String, String>,
+    pub satcache_u64: Option<SatCountCache<oxidd_core::util::num::Saturating<u64>, std::hash::RandomState>>,
+    pub state: HashMap<String, Box<dyn std::any::Any>>,
+}
+
+impl<K: Kind> Bf<K> {
+    pub fn new(extra: &BTreeMap<String, String>) -> Self {
+        Bf {
+            mref: None,
+            h: HashMap::new(),
+            tt: HashMap::new(),
+            n: 0,
+            threads: 1,
+            extra: extra.clone(),
+            satcache_u64: None,
+            state: HashMap::new(),
+        }
+    }
+
+    pub fn mref(&self) -> &<K::F as Function>::ManagerRef {
+        self.mref.as_ref().expect("no manager: `mgr` line missing")
+    }
+
+    pub fn tree_of(&self, f: &K::F) -> String {
+        f.with_manager_shared(|m, e| K::tree(m, e))
+    }
+
+    pub fn l2v(&self) -> Vec<u32> {
+        self.mref().with_manager_shared(|m| (0..m.num_levels()).map(|l| m.level_to_var(l)).collect())
+    }
+
+    /// actual truth table by the independent walk; also cross-checks `eval`
+    pub fn actual_tt(&self, f: &K::F, ctx: &mut Ctx, what: &str) -> TT {
+        let n = self.n;
+        let t = f.with_manager_shared(|m, e| TT::from_fn(n, |a| K::walk_eval(m, e, a)));
+        // `eval` must agree with the node-by-node interpretation (C02)
+        let step = if n <= 6 { 1 } else { 37 };
+        let mut a = 0usize;
+        while a < t.len() {
+            let ev = f.eval((0..n).map(|v| (v, (a >> v) & 1 != 0)));
+            if ev != t.get(a) {
+                ctx.fail("eval-vs-walk", &format!("{}: eval under assignment {:#b} gives {} but the node-by-node walk gives {}", what, a, ev, t.get(a)));
+                break;
+            }
+            a += step;
+        }
+        t
+    }
+
+    /// register a result handle: compare with the expected table, print the tree
+    pub fn put(&mut self, name: &str, r: AllocResult<K::F>, expected: Option<TT>, ctx: &mut Ctx, what: &str) -> String {
+        match r {
+            Err(_) => {
+                ctx.count("oom");
+                "OOM".into()
+            }
+            Ok(f) => {
+                let actual = self.actual_tt(&f, ctx, what);
+                if let Some(exp) = &expected {
+                    if *exp != actual {
+                        ctx.fail("wrong-function", &format!("{}: result has truth table {} but the specification gives {}", what, actual.hex(), exp.hex()));
+                    }
+                }
+                // canonicity on the implementation (C01): same function <=> same handle
+                if self.h.len() <= 600 {
+                    for (k, g) in &self.h {
+                        if let Some(tg) = self.tt.get(k) {
+                            let same_fn = *tg == actual;
+                            let same_h = *g == f;
+                            if same_fn != same_h {
+                                ctx.fail("canonicity", &format!("{}: handle {} {} the new handle but their truth tables are {} ({} vs {})", what, k, if same_h { "==" } else { "!=" }, if same_fn { "equal" } else { "different" }, tg.hex(), actual.hex()));
+                                break;
+                            }
+                        }
+                    }
+                }
+                let s = self.tree_of(&f);
+                self.tt.insert(name.to_string(), expected.unwrap_or(actual));
+                self.h.insert(name.to_string(), f);
+                s
+            }
+        }
+    }
+
+    pub fn get(&self, name: &str) -> Option<(&K::F, &TT)> {
+        Some((self.h.get(name)?, self.tt.get(name)?))
+    }
+
+    fn do_audit(&mut self, ctx: &mut Ctx) -> Option<AuditInfo> {
+        let r = self.mref().with_manager_shared(|m| K::audit(m));
+        match r {
+            Ok(info) => Some(info),
+            Err(msg) => {
+                ctx.fail("audit", &msg);
+                None
+            }
+        }
+    }
+}
+
+fn parse_kv<'a>(w: &[&'a str], key: &str) -> Option<&'a str> {
+    w.iter().find_map(|x| x.strip_prefix(key).and_then(|r| r.strip_prefix('=')))
+}
+
+impl<K: Kind> Scenario for Bf<K> {
+    fn reset(&mut self) {
+        self.h.clear();
+        self.tt.clear();
+        self.state.clear();
+        self.satcache_u64 = None;
+        self.mref = None;
+        self.n = 0;
+    }
+
+    fn step(&mut self, line: &str, ctx: &mut Ctx) -> String {
+        let w = words(line);
+        match w[0] {
+            "mgr" => {
+                let nodes: usize = parse_kv(&w, "nodes").map(|s| s.parse().unwrap()).unwrap_or(1 << 16);
+                let cache: usize = parse_kv(&w, "cache").map(|s| s.parse().unwrap()).unwrap_or(1 << 10);
+                let threads: u32 = parse_kv(&w, "threads").map(|s| s.parse().unwrap()).unwrap_or(1);
+                self.threads = threads;
+                self.mref = Some(K::new_manager(nodes, cache, threads));
+                if let Some(sd) = parse_kv(&w, "split") {
+                    let _ = sd; // split depth is set by kind specific code if supported
+                }
+                let vars: u32 = parse_kv(&w, "vars").map(|s| s.parse().unwrap()).unwrap_or(0);
+                if vars > 0 {
+                    self.mref().with_manager_exclusive(|m| {
+                        m.add_vars(vars);
+                    });
+                    self.n = vars;
+                }
+                "ok".into()
+            }
+            "addvars" => {
+                let k: u32 = w[1].parse().unwrap();
+                let r = self.mref().with_manager_exclusive(|m| m.add_vars(k));
+                let n2 = self.n + k;
+                for t in self.tt.values_mut() {
+                    *t = K::extend_tt(t, n2);
+                }
+                self.n = n2;
+                // handles must denote the extended functions (C16 / C09)
+                let names: Vec<String> = self.h.keys().cloned().collect();
+                for k in names {
+                    let f = self.h[&k].clone();
+                    let act = self.actual_tt(&f, ctx, "after addvars");
+                    if act != self.tt[&k] {
+                        ctx.fail("addvars-changed-function", &format!("handle {} denotes {} after add_vars, expected {}", k, act.hex(), self.tt[&k].hex()));
+                        break;
+                    }
+                }
+                let (nl, nv) = self.mref().with_manager_shared(|m| (m.num_levels(), m.num_vars()));
+                if nl != n2 || nv != n2 {
+                    ctx.fail("levels-vs-vars", &format!("after add_vars: num_levels {} num_vars {} expected {}", nl, nv, n2));
+                }
+                format!("{}..{}", r.start, r.end)
+            }
+            "const" => {
+                let v = w[2] == "T";
+                let r = self.mref().with_manager_shared(|m| if v { K::F::t(m) } else { K::F::f(m) });
+                let e = TT::new(self.n, v);
+                self.put(w[1], Ok(r), Some(e), ctx, line)
+            }
+            "var" | "notvar" => {
+                let v: u32 = w[2].parse().unwrap();
+                let neg = w[0] == "notvar";
+                let r = self.mref().with_manager_shared(|m| if neg { K::F::not_var(m, v) } else { K::F::var(m, v) });
+                let e = TT::var(self.n, v);
+                self.put(w[1], r, Some(if neg { e.not() } else { e }), ctx, line)
+            }
+            "cube" => {
+                // cube h +0 -2 ...: conjunction of literals built by and-chains
+                let mut e = TT::new(self.n, true);
+                let r = self.mref().with_manager_shared(|m| -> AllocResult<K::F> {
+                    let mut acc = K::F::t(m);
+                    for l in &w[2..] {
+                        let v: u32 = l[1..].parse().unwrap();
+                        let lit = if l.starts_with('-') { K::F::not_var(m, v)? } else { K::F::var(m, v)? };
+                        acc = acc.and(&lit)?;
+                    }
+                    Ok(acc)
+                });
+                for l in &w[2..] {
+                    let v: u32 = l[1..].parse().unwrap();
+                    let x = TT::var(self.n, v);
+                    e = e.map2(&x, |a, b| a && (b != l.starts_with('-')));
+                }
+                self.put(w[1], r, Some(e), ctx, line)
+            }
+            "tt" => {
+                // tt h <hex>: build the function with the given truth table as a sum of minterms
+                // (route A) or as a Shannon ite chain (route B: `ttb`)
+                let n = self.n;
+                let val = u128::from_str_radix(w[2], 16).unwrap();
+                let e = TT::from_fn(n, |a| (val >> a) & 1 != 0);
+                let r = self.mref().with_manager_shared(|m| -> AllocResult<K::F> {
+                    let mut f = K::F::f(m);
+                    for a in 0..(1usize << n) {
+                        if !e.get(a) {
+                            continue;
+                        }
+                        let mut c = K::F::t(m);
+                        for v in 0..n {
+                            let x = if (a >> v) & 1 != 0 { K::F::var(m, v)? } else { K::F::not_var(m, v)? };
+                            c = c.and(&x)?;
+                        }
+                        f = f.or(&c)?;
+                    }
+                    Ok(f)
+                });
+                self.put(w[1], r, Some(e), ctx, line)
+            }
+            "ttb" => {
+                let n = self.n;
+                let val = u128::from_str_radix(w[2], 16).unwrap();
+                let e = TT::from_fn(n, |a| (val >> a) & 1 != 0);
+                fn build<F: BooleanFunction>(m: &F::Manager<'_>, e: &TT, v: u32, fixed: usize) -> AllocResult<F> {
+                    if v == e.n {
+                        return Ok(if e.get(fixed) { F::t(m) } else { F::f(m) });
+                    }
+                    let hi = build::<F>(m, e, v + 1, fixed | (1 << v))?;
+                    let lo = build::<F>(m, e, v + 1, fixed)?;
+                    F::var(m, v)?.ite(&hi, &lo)
+                }
+                let r = self.mref().with_manager_shared(|m| build::<K::F>(m, &e, 0, 0));
+                self.put(w[1], r, Some(e), ctx, line)
+            }
+            "op" => {
+                let name = w[1];
+                let op = w[2];
+                let a = match self.get(w[3]) {
+                    Some((f, t)) => (f.clone(), t.clone()),
+                    None => return "bad-op".into(),
+                };
+                if op == "not" {
+                    let r = a.0.not();
+                    return self.put(name, r, Some(a.1.not()), ctx, line);
+                }
+                let b = match self.get(w[4]) {
+                    Some((f, t)) => (f.clone(), t.clone()),
+                    None => return "bad-op".into(),
+                };
+                if op == "ite" {
+                    let c = match self.get(w[5]) {
+                        Some((f, t)) => (f.clone(), t.clone()),
+                        None => return "bad-op".into(),
+                    };
+                    let r = a.0.ite(&b.0, &c.0);
+                    let e = TT::from_fn(self.n, |x| if a.1.get(x) { b.1.get(x) } else { c.1.get(x) });
+                    return self.put(name, r, Some(e), ctx, line);
+                }
+                let sem = match bin_sem(op) {
+                    Some(s) => s,
+                    None => return "bad-op".into(),
+                };
+                let r = match op {
+                    "and" => a.0.and(&b.0),
+                    "or" => a.0.or(&b.0),
+                    "nand" => a.0.nand(&b.0),
+                    "nor" => a.0.nor(&b.0),
+                    "xor" => a.0.xor(&b.0),
+                    "equiv" => a.0.equiv(&b.0),
+                    "imp" => a.0.imp(&b.0),
+                    "imp_strict" => a.0.imp_strict(&b.0),
+                    _ => unreachable!(),
+                };
+                self.put(name, r, Some(a.1.map2(&b.1, sem)), ctx, line)
+            }
+            "clone" => {
+                let (f, t) = match self.get(w[2]) {
+                    Some((f, t)) => (f.clone(), t.clone()),
+                    None => return "bad-op".into(),
+                };
+                self.h.insert(w[1].into(), f);
+                self.tt.insert(w[1].into(), t);
+                "ok".into()
+            }
+            "drop" => {
+                if self.h.remove(w[1]).is_none() {
+                    return "bad-op".into();
+                }
+                self.tt.remove(w[1]);
+                "ok".into()
+            }
+            "dropall" => {
+                self.h.clear();
+                self.tt.clear();
+                "ok".into()
+            }
+            "eq" => {
+                let (a, b) = match (self.get(w[1]), self.get(w[2])) {
+                    (Some(a), Some(b)) => (a, b),
+                    _ => return "bad-op".into(),
+                };
+                let same = a.0 == b.0;
+                if same != (a.1 == b.1) {
+                    ctx.fail("canonicity", &format!("{} == {} is {} but the functions are {}", w[1], w[2], same, if a.1 == b.1 { "equal" } else { "different" }));
+                }
+                // Hash and Ord must be consistent with ==
+                use std::hash::{BuildHasher, BuildHasherDefault, DefaultHasher};
+                let bh = BuildHasherDefault::<DefaultHasher>::default();
+                if same && bh.hash_one(a.0) != bh.hash_one(b.0) {
+                    ctx.fail("hash-vs-eq", "equal handles hash differently");
+                }
+                if same != (a.0.cmp(b.0) == std::cmp::Ordering::Equal) {
+                    ctx.fail("ord-vs-eq", "Ord disagrees with ==");
+                }
+                crate_bool(same)
+            }
+            "eval" => {
+                let (f, t) = match self.get(w[1]) {
+                    Some(x) => x,
+                    None => return "bad-op".into(),
+                };
+                let a = usize::from_str_radix(w[2], 2).unwrap();
+                let n = self.n;
+                let r = f.eval((0..n).map(|v| (v, (a >> v) & 1 != 0)));
+                if r != t.get(a) {
+                    ctx.fail("wrong-eval", &format!("eval {} under {:#b} = {} expected {}", w[1], a, r, t.get(a)));
+                }
+                crate_bool(r)
+            }
+            "sat" | "valid" => {
+                let (f, t) = match self.get(w[1]) {
+                    Some(x) => x,
+                    None => return "bad-op".into(),
+                };
+                let (r, e) = if w[0] == "sat" { (f.satisfiable(), !t.is_false()) } else { (f.valid(), t.is_true()) };
+                if r != e {
+                    ctx.fail("wrong-sat-valid", &format!("{} {} = {} expected {}", w[0], w[1], r, e));
+                }
+                crate_bool(r)
+            }
+            "count" => {
+                let (f, t) = match self.get(w[1]) {
+                    Some(x) => x,
+                    None => return "bad-op".into(),
+                };
+                let c = f.node_count();
+                let l2v = self.l2v();
+                let e = K::ref_node_count(t, &l2v);
+                if c != e {
+                    ctx.fail("node-count", &format!("node_count({}) = {} but the reduced diagram of {} under order {:?} has {} nodes", w[1], c, t.hex(), l2v, e));
+                }
+                c.to_string()
+            }
+            "cof" => {
+                let (f, _t) = match self.get(w[1]) {
+                    Some(x) => x,
+                    None => return "bad-op".into(),
+                };
+                match f.cofactors() {
+                    None => "none".into(),
+                    Some((ft, fe)) => {
+                        let (a, b) = (f.cofactor_true().unwrap(), f.cofactor_false().unwrap());
+                        if a != ft || b != fe {
+                            ctx.fail("cofactors-inconsistent", "cofactors() disagrees with cofactor_true()/cofactor_false()");
+                        }
+                        let r = format!("{} {}", self.tree_of(&ft), self.tree_of(&fe));
+                        // Shannon cofactors w.r.t. the top variable are checked by the kind (ext op `cofchk`)
+                        self.state.insert("cof_t".into(), Box::new(ft));
+                        self.state.insert("cof_e".into(), Box::new(fe));
+                        r
+                    }
+                }
+            }
+            "pickvec" => {
+                // pickvec h <choice bits by level>: pick_cube with a scripted choice function
+                let (f, t) = match self.get(w[1]) {
+                    Some(x) => x,
+                    None => return "bad-op".into(),
+                };
+                let choice = usize::from_str_radix(w[2], 2).unwrap();
+                let mut asked = 0usize;
+                let mut twice = false;
+                let mut wrong_level = false;
+                let r = f.pick_cube(|m, e, level| {
+                    if asked & (1 << level) != 0 {
+                        twice = true;
+                    }
+                    asked |= 1 << level;
+                    if let oxidd::Node::Inner(n) = m.get_node(e) {
+                        use oxidd::InnerNode;
+                        if !n.check_level(|l| l == level) {
+                            wrong_level = true;
+                        }
+                    } else {
+                        wrong_level = true;
+                    }
+                    (choice >> level) & 1 != 0
+                });
+                if twice {
+                    ctx.fail("choice-twice", "pick_cube asked the choice function twice for one level");
+                }
+                if wrong_level {
+                    ctx.fail("choice-wrong-node", "pick_cube passed a node that is not at the given level");
+                }
+                match r {
+                    None => {
+                        if !t.is_false() {
+                            ctx.fail("pick-none-for-sat", "pick_cube returned None for a satisfiable function");
+                        }
+                        "NONE".into()
+                    }
+                    Some(cube) => {
+                        if t.is_false() {
+                            ctx.fail("pick-some-for-unsat", "pick_cube returned a cube for the unsatisfiable function");
+                        }
+                        let n = self.n;
+                        let l2v = self.l2v();
+                        let v2l: Vec<u32> = {
+                            let mut x = vec![0; l2v.len()];
+                            for (l, &v) in l2v.iter().enumerate() {
+                                x[v as usize] = l as u32;
+                            }
+                            x
+                        };
+                        let mut c = TT::new(n, true);
+                        let mut s = String::new();
+                        for (v, &l) in cube.iter().enumerate() {
+                            let x = TT::var(n, v as u32);
+                            match l {
+                                OptBool::True => c = c.map2(&x, |a, b| a && b),
+                                OptBool::False => c = c.map2(&x, |a, b| a && !b),
+                                OptBool::None => {}
+                            }
+                            s.push(match l {
+                                OptBool::True => '1',
+                                OptBool::False => '0',
+                                OptBool::None => '-',
+                            });
+                            // the choice is honoured where it was asked
+                            let lvl = v2l[v];
+                            if asked & (1 << lvl) != 0 {
+                                let want = (choice >> lvl) & 1 != 0;
+                                if l != OptBool::from(want) {
+                                    ctx.fail("choice-ignored", &format!("variable {} (level {}): choice {} was requested but the cube has {:?}", v, lvl, want, l as i8));
+                                }
+                            } else if l != OptBool::None {
+                                // forced: flipping the literal must leave f
+                                let flipped = TT::from_fn(n, |a| c_get_flip(&cube, a, v));
+                                if flipped.implies(t) {
+                                    ctx.fail("choice-not-asked", &format!("variable {} is fixed in the cube although it is neither forced nor was the choice function asked", v));
+                                }
+                            }
+                        }
+                        if cube.len() != n as usize {
+                            ctx.fail("pick-len", "cube vector has wrong length");
+                        }
+                        if !c.implies(t) {
+                            ctx.fail("pick-not-implicant", &format!("pick_cube result {} does not imply f = {}", s, t.hex()));
+                        }
+                        self.state.insert("last_cube".into(), Box::new(c));
+                        s
+                    }
+                }
+            }
+            "pick" => {
+                // pick h f <choice bits>: pick_cube_dd; must describe the same cube as pick_cube
+                let (f, t) = match self.get(w[2]) {
+                    Some((f, t)) => (f.clone(), t.clone()),
+                    None => return "bad-op".into(),
+                };
+                let choice = usize::from_str_radix(w[3], 2).unwrap();
+                let r = f.pick_cube_dd(|_, _, level| (choice >> level) & 1 != 0);
+                let v = f.pick_cube(|_, _, level| (choice >> level) & 1 != 0);
+                let n = self.n;
+                let expected = match v {
+                    None => TT::new(n, false),
+                    Some(cube) => {
+                        let mut c = TT::new(n, true);
+                        for (v, &l) in cube.iter().enumerate() {
+                            let x = TT::var(n, v as u32);
+                            match l {
+                                OptBool::True => c = c.map2(&x, |a, b| a && b),
+                                OptBool::False => c = c.map2(&x, |a, b| a && !b),
+                                OptBool::None => {}
+                            }
+                        }
+                        c
+                    }
+                };
+                if t.is_false() != expected.is_false() {
+                    ctx.fail("pick-none-iff-false", "pick_cube is None iff the function is unsatisfiable — violated");
+                }
+                if !expected.implies(&t) {
+                    ctx.fail("pick-not-implicant", "cube does not imply the function");
+                }
+                // expected = the cube of pick_cube: pick_cube_dd must describe the same cube
+                self.put(w[1], r, Some(expected), ctx, line)
+            }
+            "pickset" => {
+                // pickset h f hset
+                let (f, t) = match self.get(w[2]) {
+                    Some((f, t)) => (f.clone(), t.clone()),
+                    None => return "bad-op".into(),
+                };
+                let (s, ts) = match self.get(w[3]) {
+                    Some((f, t)) => (f.clone(), t.clone()),
+                    None => return "bad-op".into(),
+                };
+                let lits = match ts.cube_literals() {
+                    Some(l) => l,
+                    None => return "bad-op".into(),
+                };
+                let r = f.pick_cube_dd_set(&s);
+                let out = self.put(w[1], r, None, ctx, line);
+                if out == "OOM" {
+                    return out;
+                }
+                let c = self.tt[w[1]].clone();
+                if t.is_false() {
+                    if !c.is_false() {
+                        ctx.fail("pick-some-for-unsat", "pick_cube_dd_set of ⊥ is not ⊥");
+                    }
+                    return out;
+                }
+                if c.is_false() || !c.implies(&t) {
+                    ctx.fail("pick-not-implicant", &format!("pick_cube_dd_set result {} is not a non-empty implicant of {}", c.hex(), t.hex()));
+                    return out;
+                }
+                let cl = match c.cube_literals() {
+                    Some(l) => l,
+                    None => {
+                        ctx.fail("pick-not-cube", "pick_cube_dd_set result is not a cube");
+                        return out;
+                    }
+                };
+                // wherever the result fixes a variable against the literal set, flipping it must leave f;
+                // wherever the literal set names a variable that the result leaves open or fixes
+                // the other way, the requested polarity must be impossible... (only the first is demanded)
+                let n = self.n;
+                for &(v, pol) in &cl {
+                    if let Some(&(_, want)) = lits.iter().find(|(lv, _)| *lv == v) {
+                        if want != pol {
+                            // flipped cube (with v := want) must not imply f
+                            let xv = TT::var(n, v);
+                            let without = TT::from_fn(n, |a| c.get(a) || c.get(a ^ (1 << v)));
+                            let flipped = without.map2(&xv, |a, b| a && (b == want));
+                            if flipped.implies(&t) {
+                                ctx.fail("literal-set-ignored", &format!("variable {} is set to {} although the literal set asks for {} and that choice is possible (f = {}, set = {}, result = {})", v, pol, want, t.hex(), ts.hex(), c.hex()));
+                            }
+                        }
+                    }
+                }
+                out
+            }
+            "gc" => {
+                let (col, inner) = self.mref().with_manager_shared(|m| {
+                    let before = m.num_inner_nodes();
+                    let c = m.gc();
+                    let after = m.num_inner_nodes();
+                    if before - after != c {
+                        (usize::MAX, after)
+                    } else {
+                        (c, after)
+                    }
+                });
+                if col == usize::MAX {
+                    ctx.fail("gc-return", "gc() return value differs from the change of num_inner_nodes()");
+                }
+                // handles unchanged by gc (C05)
+                let names: Vec<String> = self.h.keys().cloned().collect();
+                for k in names {
+                    let f = self.h[&k].clone();
+                    let act = self.actual_tt(&f, ctx, "after gc");
+                    if act != self.tt[&k] {
+                        ctx.fail("gc-changed-function", &format!("handle {} changed by gc", k));
+                        break;
+                    }
+                }
+                // after gc the stored nodes are exactly those reachable from live handles
+                if let Some(info) = self.do_audit(ctx) {
+                    let mut reach = std::collections::HashSet::new();
+                    for f in self.h.values() {
+                        f.with_manager_shared(|m, e| collect_nodes::<K>(m, e, &mut reach));
+                    }
+                    let internal = self.mref().with_manager_shared(|m| K::internal_roots(m));
+                    if info.inner != reach.len() + internal && internal == 0 {
+                        ctx.fail("gc-not-exact", &format!("after gc {} inner nodes are stored but {} are reachable from live handles", info.inner, reach.len()));
+                    }
+                    if info.inner != inner {
+                        ctx.fail("num-inner-nodes", &format!("num_inner_nodes() = {} but iterating the levels finds {}", inner, info.inner));
+                    }
+                }
+                inner.to_string()
+            }
+            "audit" => match self.do_audit(ctx) {
+                Some(info) => {
+                    // reference counts (C05): rc = handles + stored parent edges (+ internal)
+                    let _ = info;
+                    "ok".into()
+                }
+                None => "ok".into(),
+            },
+            "order" => {
+                let order: Vec<u32> = w[1..].iter().filter(|x| !x.contains('=')).map(|x| x.parse().unwrap()).collect();
+                let seq = w.iter().any(|x| *x == "seq=1");
+                let before = self.l2v();
+                K::reorder(self.mref(), &order, seq);
+                let l2v = self.l2v();
+                // requested relative order holds
+                let pos: HashMap<u32, usize> = l2v.iter().enumerate().map(|(l, &v)| (v, l)).collect();
+                for p in order.windows(2) {
+                    if pos[&p[0]] >= pos[&p[1]] {
+                        ctx.fail("order-not-established", &format!("requested {:?} but level_to_var is {:?}", order, l2v));
+                        break;
+                    }
+                }
+                // maps are inverse permutations
+                let ok_perm = self.mref().with_manager_shared(|m| (0..m.num_levels()).all(|l| m.var_to_level(m.level_to_var(l)) == l));
+                if !ok_perm || l2v.len() != before.len() {
+                    ctx.fail("perm-broken", "var_to_level/level_to_var are not inverse permutations after reordering");
+                }
+                // every handle denotes the same function
+                let names: Vec<String> = self.h.keys().cloned().collect();
+                for k in names {
+                    let f = self.h[&k].clone();
+                    let act = self.actual_tt(&f, ctx, "after reorder");
+                    if act != self.tt[&k] {
+                        ctx.fail("reorder-changed-function", &format!("handle {} denotes {} after set_var_order {:?} (before: {:?}), expected {}", k, act.hex(), order, before, self.tt[&k].hex()));
+                        break;
+                    }
+                }
+                self.do_audit(ctx);
+                l2v.iter().map(|v| v.to_string()).collect::<Vec<_>>().join(" ")
+            }
+            "restrict" => {
+                // restrict h f hcube
+                let (f, t) = match self.get(w[2]) {
+                    Some((f, t)) => (f.clone(), t.clone()),
+                    None => return "bad-op".into(),
+                };
+                let (c, tc) = match self.get(w[3]) {
+                    Some((f, t)) => (f.clone(), t.clone()),
+                    None => return "bad-op".into(),
+                };
+                let lits = match tc.cube_literals() {
+                    Some(l) => l,
+                    None => return "bad-op".into(),
+                };
+                let mut e = t.clone();
+                for (v, b) in lits {
+                    e = e.cofactor(v, b);
+                }
+                let r = f.restrict(&c);
+                self.put(w[1], r, Some(K::restrict_expected(&t, &tc, e)), ctx, line)
+            }
+            "satcount" => {
+                // satcount f vars u64|u128|f64|nat [cache=<name>]
+                use oxidd_core::util::num::{F64, Natural, Saturating};
+                let (f, t) = match self.get(w[1]) {
+                    Some((f, t)) => (f.clone(), t.clone()),
+                    None => return "bad-op".into(),
+                };
+                let vars: u32 = w[2].parse().unwrap();
+                let n = self.n;
+                // exact expected count: models over `vars` variables (vars >= n; ZBDD: vars == n)
+                let base = t.count() as u128;
+                let cname = parse_kv(&w, "cache").unwrap_or("").to_string();
+                macro_rules! with_cache {
+                    ($ty:ty, $body:expr) => {{
+                        let key = format!("satcache-{}-{}", stringify!($ty), cname);
+                        let mut c: Box<SatCountCache<$ty, std::hash::RandomState>> = if cname.is_empty() {
+                            Box::new(SatCountCache::default())
+                        } else {
+                            match self.state.remove(&key) {
+                                Some(b) => b.downcast().unwrap(),
+                                None => Box::new(SatCountCache::default()),
+                            }
+                        };
+                        let r: $ty = f.sat_count(vars, &mut c);
+                        if !cname.is_empty() {
+                            self.state.insert(key, c);
+                        }
+                        let f2: fn($ty) -> String = $body;
+                        f2(r)
+                    }};
+                }
+                let extra = vars.saturating_sub(n);
+                let out = match w[3] {
+                    "u64" => with_cache!(Saturating<u64>, |r| r.0.to_string()),
+                    "u128" => with_cache!(Saturating<u128>, |r| r.0.to_string()),
+                    "f64" => with_cache!(F64, |r| format!("{:e}", r.0)),
+                    "nat" => with_cache!(Natural, |r| format!("{:#x}", r)),
+                    _ => return "bad-op".into(),
+                };
+                if vars >= n {
+                    // oracle: base * 2^extra
+                    let exact_small = if extra < 100 { base.checked_shl(extra).filter(|x| x >> extra == base) } else { None };
+                    match w[3] {
+                        "u64" => {
+                            let e = match exact_small {
+                                Some(x) if x <= u64::MAX as u128 && (vars < 64 || base == 0) => x.to_string(),
+                                _ if base == 0 => "0".into(),
+                                _ => u64::MAX.to_string(),
+                            };
+                            if e != out {
+                                ctx.fail("satcount", &format!("sat_count<u64>({}, {}) = {} expected {}", t.hex(), vars, out, e));
+                            }
+                        }
+                        "u128" => {
+                            let e = match exact_small {
+                                Some(x) if vars < 128 || base == 0 => x.to_string(),
+                                _ if base == 0 => "0".into(),
+                                _ => u128::MAX.to_string(),
+                            };
+                            if e != out {
+                                ctx.fail("satcount", &format!("sat_count<u128>({}, {}) = {} expected {}", t.hex(), vars, out, e));
+                            }
+                        }
+                        "nat" => {
+                            // base * 2^extra in hex: hex(base) followed by extra zero bits
+                            let e = nat_shl_hex(base, extra);
+                            if e != out {
+                                ctx.fail("satcount", &format!("sat_count<Natural>({}, {}) = {} expected {}", t.hex(), vars, out, e));
+                            }
+                        }
+                        "f64" => {
+                            let got: f64 = out.parse().unwrap_or(f64::NAN);
+                            let e = (base as f64) * 2f64.powi(extra as i32);
+                            let ok = if e == 0.0 { got == 0.0 } else if e.is_infinite() { got.is_infinite() } else { ((got - e) / e).abs() < 1e-12 };
+                            if !ok {
+                                ctx.fail("satcount", &format!("sat_count<f64>({}, {}) = {} expected {}", t.hex(), vars, out, e));
+                            }
+                            // floats are not compared textually between implementation and model
+                            return if ok { "ok".into() } else { format!("f64-mismatch {}", out) };
+                        }
+                        _ => {}
+                    }
+                }
+                out
+            }
+            "pickuni" => {
+                // pickuni f seed reps: uniform picking never returns a non-model; None iff unsat
+                let (f, t) = match self.get(w[1]) {
+                    Some((f, t)) => (f.clone(), t.clone()),
+                    None => return "bad-op".into(),
+                };
+                let seed: u64 = w[2].parse().unwrap();
+                let reps: usize = w[3].parse().unwrap();
+                let n = self.n;
+                let mut rng = oxidd_core::util::Rng::new_seed(seed);
+                let mut cache: SatCountCache<oxidd_core::util::num::F64, std::hash::RandomState> = SatCountCache::default();
+                let mut hist: HashMap<usize, u64> = HashMap::new();
+                let mut h2 = crate::Rng::new(seed ^ 0xabcdef);
+                for _ in 0..reps {
+                    match f.pick_cube_uniform(&mut cache, &mut rng) {
+                        None => {
+                            if !t.is_false() {
+                                ctx.fail("pick-none-for-sat", "pick_cube_uniform returned None for a satisfiable function");
+                            }
+                            break;
+                        }
+                        Some(cube) => {
+                            if t.is_false() {
+                                ctx.fail("pick-some-for-unsat", "pick_cube_uniform returned a cube for ⊥");
+                                break;
+                            }
+                            // complete don't cares uniformly, as documented
+                            let mut a = 0usize;
+                            for (v, &l) in cube.iter().enumerate() {
+                                let bit = match l {
+                                    OptBool::True => true,
+                                    OptBool::False => false,
+                                    OptBool::None => h2.chance(1, 2),
+                                };
+                                if bit {
+                                    a |= 1 << v;
+                                }
+                            }
+                            if !t.get(a) {
+                                ctx.fail("uniform-non-model", &format!("pick_cube_uniform returned a non-model {:#b} of {}", a, t.hex()));
+                                break;
+                            }
+                            *hist.entry(a).or_insert(0) += 1;
+                        }
+                    }
+                }
+                // unbiased: every model's frequency within 6 sigma (statistical test, wide tolerance)
+                let models = t.count();
+                if models > 0 && reps as u64 >= 200 * models && n <= 6 {
+                    let p = 1.0 / models as f64;
+                    let mean = reps as f64 * p;
+                    let sd = (reps as f64 * p * (1.0 - p)).sqrt();
+                    for a in 0..t.len() {
+                        if t.get(a) {
+                            let c = *hist.get(&a).unwrap_or(&0) as f64;
+                            if (c - mean).abs() > 6.0 * sd + 1.0 {
+                                ctx.fail("uniform-bias", &format!("model {:#b} of {} picked {} times out of {}, expected about {:.1} (sd {:.1})", a, t.hex(), c, reps, mean, sd));
+                                break;
+                            }
+                        }
+                    }
+                }
+                "ok".into()
+            }
+            "show" => match self.get(w[1]) {
+                Some((f, _)) => self.tree_of(f),
+                None => "bad-op".into(),
+            },
+            _ => match K::ext(self, &w, ctx) {
+                Some(s) => s,
+                None => "bad-op".into(),
+            },
+        }
+    }
+}
+
+fn c_get_flip(cube: &[OptBool], a: usize, flip: usize) -> bool {
+    cube.iter().enumerate().all(|(v, &l)| {
+        let bit = (a >> v) & 1 != 0;
+        match l {
+            OptBool::None => true,
+            OptBool::True => bit != (v == flip),
+            OptBool::False => bit == (v == flip),
+        }
+    })
+}
+
+pub fn crate_bool(b: bool) -> String {
+    if b { "1".into() } else { "0".into() }
+}
+
+/// collect the node ids reachable from an edge
+pub fn collect_nodes<'id, K: Kind>(m: &<K::F as Function>::Manager<'id>, e: &EdgeOfFunc<'id, K::F>, out: &mut std::collections::HashSet<usize>) {
+    use oxidd::{Edge, InnerNode, Node};
+    if let Node::Inner(n) = m.get_node(e) {
+        if out.insert(e.node_id()) {
+            for c in n.children() {
+                collect_nodes::<K>(m, &c, out);
+            }
+        }
+    }
+}
+
+/// hexadecimal rendering (with `0x` prefix) of `base * 2^shift`
+pub fn nat_shl_hex(base: u128, shift: u32) -> String {
+    if base == 0 {
+        return "0x0".into();
+    }
+    let q = shift / 4;
+    let r = shift % 4;
+    // base << r fits in u128 for the bases used here (base < 2^64)
+    let head = if base.leading_zeros() >= r { format!("{:x}", base << r) } else { format!("{:x}{:x}", base >> (128 - r), base << r) };
+    format!("0x{}{}", head, "0".repeat(q as usize))
+}
